@@ -90,7 +90,11 @@ BTreeItems_length_or_nonzero(BTreeItems *self, int nonzero)
         return r;
 
     Py_INCREF(b);
-    PER_USE_OR_RETURN(b, -1);
+    UNLESS (PER_USE(b))
+    {
+        Py_DECREF(b);
+        return -1;
+    }
     while ((next = b->next))
     {
         r += b->len;
@@ -105,7 +109,11 @@ BTreeItems_length_or_nonzero(BTreeItems *self, int nonzero)
         PER_UNUSE(b);
         Py_DECREF(b);
         b = next;
-        PER_USE_OR_RETURN(b, -1);
+        UNLESS (PER_USE(b))
+        {
+            Py_DECREF(b);
+            return -1;
+        }
     }
     PER_UNUSE(b);
     Py_DECREF(b);
